@@ -7,7 +7,7 @@
    comb / fuel / the script [evs] quantify over every reader behaviour (arbitrary
    chunking, 0-byte reads, an error at any offset, data together with EOF/error).
    [matches_desc H dg sz bs] = length bs = sz /\ dg = alg:H alg bs /\ dg is a valid digest. *)
-From Oras Require Import Base.Prelude Generated.GC05 Model.Verify Proofs.Verify Proofs.VerifyComplete Proofs.VerifyProxy Proofs.VerifyFuel Proofs.VerifyConc Proofs.VerifyTop Proofs.VerifyWriter Proofs.VerifyNames.
+From Oras Require Import Base.Prelude Generated.GC05 Model.Verify Proofs.Verify Proofs.VerifyComplete Proofs.VerifyProxy Proofs.VerifyFuel Proofs.VerifyConc Proofs.VerifyTop Proofs.VerifyWriter Proofs.VerifyNames Proofs.VerifyFileConc.
 
 (* ReadAll hands back data only when length and digest match and the reader held
    nothing else *)
@@ -430,6 +430,35 @@ Theorem C05_concurrent_memory_explored :
     In st' (explore_m H fuel st) -> exists sched, mrun H st sched = Some st'.
 Proof. exact explore_m_reachable. Qed.
 Print Assumptions C05_concurrent_memory_explored.
+
+(* concurrent NAMED pushes into one file.Store (any number of threads: good and bad
+   content, one digest under several names, one name several times; per-name lock,
+   duplicate check, resolveWritePath, Create, CopyBuffer, record-or-remove), any
+   schedule, provided no two different names in play ([U]) resolve to one path: at every
+   instant what Fetch serves hashes to the digest asked for, and a push that reports
+   success has made its reader's exact bytes visible under its name *)
+Theorem C05_concurrent_file :
+  forall (H : str -> str -> str) (U : list str),
+    (forall a c, In a U -> In c U -> resolve_name a = resolve_name c -> a = c) ->
+    forall s ts sched st,
+    file_reach_names H s -> (forall n, name_in n (f_names s) = true -> In n U) ->
+    Forall (fun t => ft_pc t = FStart /\ In (ft_name t) U) ts ->
+    frun H (mkFC s ts) sched = Some st ->
+    (forall name d bs, file_fetch (fc_st st) name d = Some bs ->
+                       d_dg d = digest_of H (alg_of (d_dg d)) bs /\ valid_digest (d_dg d) = true) /\
+    (forall i st' t out path, fstep H st i = Some st' -> nth_error (fc_thr st) i = Some t ->
+       ft_pc t = FWrite None out path ->
+       file_fetch (fc_st st') (ft_name t) (ft_d t) = Some out /\
+       matches_desc H (d_dg (ft_d t)) (d_sz (ft_d t)) out /\ stream (ft_evs t) = out).
+Proof. exact file_concurrent. Qed.
+Print Assumptions C05_concurrent_file.
+
+(* the outcome set file-store races are compared with consists of runs of that system *)
+Theorem C05_concurrent_file_explored :
+  forall (H : str -> str -> str) fuel st st',
+    In st' (explore_f H fuel st) -> exists sched, frun H st sched = Some st'.
+Proof. exact explore_f_reachable. Qed.
+Print Assumptions C05_concurrent_file_explored.
 
 (* the outcome set the implementation's concurrent runs are compared with (exhaustive
    interleaving of the micro-steps, [explore]) consists of runs of the transition
